@@ -57,8 +57,11 @@ type authCase struct {
 	Iterations   int    `json:"iterations"`
 	LowIter      int    `json:"low_iter,omitempty"` // low-iterations: what the broker announces
 	NullMsg      bool   `json:"null_msg,omitempty"` // failed rounds are answered with a null error message
-	First        int64  `json:"first"`              // log start of partition 1
-	Last         int64  `json:"last"`               // log end of partition 1
+	// HideHandshake (Transport entries): the brokers do not list SaslHandshake in their ApiVersions answer (they serve it
+	// all the same): a configured mechanism is used whatever the broker lists
+	HideHandshake bool  `json:"hide_handshake,omitempty"`
+	First         int64 `json:"first"` // log start of partition 1
+	Last          int64 `json:"last"`  // log end of partition 1
 }
 
 const topic = "t"
@@ -178,6 +181,9 @@ func run(tb ev.TB, c authCase) {
 	cl.CreateTopic(topic, 2) // partition 0 led by broker 1, partition 1 by broker 2
 	cl.SetLogRange(topic, 1, c.First, c.Last)
 	cl.SetVersions(0, 17, 0, c.HandshakeMax)
+	if c.HideHandshake && family(c.Entry) == "transport" && c.HandshakeMax == 0 {
+		cl.HideFromApiVersions(17)
+	}
 	cl.SetVersions(0, 36, 0, c.AuthMax)
 
 	cfg := &fakecluster.SASLConfig{Mechanisms: append([]string{}, mechs...), Users: map[string]string{}, Iterations: c.Iterations}
@@ -908,6 +914,7 @@ func TestGenerated(t *testing.T) {
 			Iterations: rapid.SampledFrom([]int{4096, 4096, 4096, 4097, 6000}).Draw(t, "iterations")}
 		c.WrongPass = wrongOf(c.Pass, rapid.IntRange(0, 3).Draw(t, "wrongHow"))
 		c.NullMsg = rapid.Bool().Draw(t, "nullMsg")
+		c.HideHandshake = family(co.Entry) == "transport" && co.HS == 0 && rapid.IntRange(0, 2).Draw(t, "hideHandshake") == 0
 		if co.Fault == "low-iterations" {
 			c.LowIter = rapid.SampledFrom([]int{4095, 1, 1000}).Draw(t, "lowIter")
 		}
